@@ -51,7 +51,7 @@ def render_request(case, i):
     extra = []
     ua = "ua-%s." % rid
     if hostile == "pct-lf-path":
-        path += "/a%0Ainjected-line ID=deadbeef S=200 B=0"
+        path += "/a%0Ainjected-line%20ID=deadbeef%20S=200%20B=0"
     elif hostile == "pct-cr-path":
         path += "/a%0Dcr"
     elif hostile == "quotes":
